@@ -175,7 +175,7 @@ def obligations(tier):
                     [("persist", "bool")] + MAP_PARAMS,
                     tmpl.size_pre(t, hi),
                     f"H.reload({tid!r}, {kind!r}, persist, {MAP_ARGS})",
-                    timeout=400,
+                    timeout=400 if not thorough else 1200,
                     flags=("tokpickle",),
                     bounds=f"{tid}: {t.doc}; storage {kind}; persist_memory symbolic; sizes 1..{hi}; values unbounded; load_outputs (twice, single and "
                     "multi-name), RunInfo.load (inputs, defaults, shapes, masks, mapspecs, internal shapes, storage), init_store",
